@@ -189,10 +189,14 @@ def r4(ctx):
   # shutdown reader agrees on the tuple shape
   sh = prog.func(MUX, 'MuxSocketTransportSink._Shutdown')
   loops = [n for n in ast.walk(sh.node) if isinstance(n, ast.For) and '_tag_map' in U(n.iter)]
-  ok = len(loops) == 1 and isinstance(loops[0].target, ast.Tuple) and len(loops[0].target.elts) == 3
-  if ok:
+  ok = len(loops) == 1
+  if ok and isinstance(loops[0].target, ast.Tuple):
+    ok = len(loops[0].target.elts) == 3
     s0 = U(loops[0].target.elts[0])
-    ok = any(isinstance(c, ast.Call) and call_attr(c) == 'AsyncProcessResponseMessage' and U(c.func.value) == s0 for c in ast.walk(loops[0]))
+  elif ok:
+    s0 = '%s[0]' % U(loops[0].target)        # entries indexed instead of unpacked: the stack is element 0
+  if ok:
+    ok = any(isinstance(c, ast.Call) and call_attr(c) == 'AsyncProcessResponseMessage' and U(c.func.value).replace(' ', '') == s0 for c in ast.walk(loops[0]))
   ctx.ob('C02.R4', sh, 'shutdown unpacks tag-map entries as (stack, _, _)', ok, 'shutdown loop shape changed', 'writer and readers of the tag map must agree on the tuple layout')
 
 
@@ -233,7 +237,7 @@ def r5(ctx):
         ok = arg == f.params[idx]
       else:
         # value obtained from _Get in the same function
-        ok = any(isinstance(st, ast.Assign) and U(st.targets[0]) == arg and U(st.value) == 'self._Get()' for st in walk_no_nested(f.node))
+        ok = arg == 'self._Get()' or any(isinstance(st, ast.Assign) and U(st.targets[0]) == arg and U(st.value) == 'self._Get()' for st in walk_no_nested(f.node))
     ctx.ob('C02.R5', f, '_Release(%s) by the owner of the connection' % arg, ok, '%s releases %s, which it does not own' % (f.qualname, arg), why)
   ctx.floor('C02.R5', '_Release call sites', len(callers), 3)
   ps = prog.func('scales/pool/base.py', 'PoolSink.AsyncProcessRequest')
